@@ -21,7 +21,7 @@ import (
 )
 
 var injKinds = []string{"configmap", "secret", "crd-instance", "list-kind", "truncate", "tabs", "binary", "notyaml", "emptyfile", "listdoc",
-	"scalar-doc", "np-bad-selector", "pod-bad-labels", "deploy-bad-replicas", "np-bad-ports", "svc-bad-ports", "no-kind", "kind-only"}
+	"scalar-doc", "foreign-netpol", "foreign-netpol", "foreign-deploy", "np-bad-selector", "pod-bad-labels", "deploy-bad-replicas", "np-bad-ports", "svc-bad-ports", "no-kind", "kind-only"}
 
 func injection(kind string, seed int, good string) (ext, content string) {
 	switch kind {
@@ -40,6 +40,12 @@ func injection(kind string, seed int, good string) (ext, content string) {
 	case "truncate":
 		// an irrelevant document cut in the middle of a flow sequence
 		return "yaml", "apiVersion: v1\nkind: ConfigMap\nmetadata:\n  name: cm\ndata: {a: [1, 2"
+	case "foreign-netpol":
+		// a Calico policy: another resource that happens to be called NetworkPolicy (it selects nothing here)
+		return "yaml", "apiVersion: projectcalico.org/v3\nkind: NetworkPolicy\nmetadata:\n  name: allow-tcp-6379\n  namespace: " + []string{"ns0", "ns1", "default"}[seed%3] +
+			"\nspec:\n  selector: role == 'database'\n  types: [Ingress]\n  ingress:\n  - action: Allow\n    protocol: TCP\n    source: {selector: role == 'frontend'}\n    destination: {ports: [6379]}\n"
+	case "foreign-deploy":
+		return "yaml", "apiVersion: example.com/v1\nkind: Deployment\nmetadata:\n  name: shadow\n  namespace: ns0\nspec:\n  size: 3\n"
 	case "np-bad-selector":
 		return "yaml", "apiVersion: networking.k8s.io/v1\nkind: NetworkPolicy\nmetadata:\n  name: badsel\n  namespace: ns0\nspec:\n  podSelector: 7\n"
 	case "pod-bad-labels":
@@ -105,6 +111,10 @@ func goodText(w *World) string {
 func classify(tmp, good string, in injSpec, goodInfos int) string {
 	if buildDirty(tmp, good, []injSpec{in}) != nil {
 		return "ioerr"
+	}
+	if strings.HasPrefix(in.kind, "foreign-") {
+		// a resource of another API group is a document the analysis does not use, whatever the parser under test makes of it
+		return "ignored"
 	}
 	infos, errs := fsscanner.GetResourceInfosFromDirPath([]string{tmp}, true, false)
 	if len(errs) > 0 {
